@@ -198,7 +198,7 @@ def mergeOffset (s : St) : Option Nat := mergeOffsetGo s s.idx 0 s.nrec
 
 /-- `startMergeJobIfNeeded` -/
 def startMerge (s : St) : St :=
-  if s.merge || s.tag || s.convert then s
+  if s.merge || s.tag || s.convert || !s.queue.isEmpty then s
   else if s.tags.any (fun nt => !nt.2.unc.isEmpty) then s
   else match mergeOffset s with
     | none => s
@@ -521,6 +521,8 @@ def step (s : St) (e : Ev) (st : Started) : St × Res :=
         | some t =>
           if nt.refs.any (fun r => (sget s.tags r).isNone) then (s, .err)
           else if createsTagCycle s.tags name nt then (s, .err)
+          else if !t.convs.isEmpty &&
+              (nt.mfeat &&& fData ≠ 0 || nt.sfeat &&& fData ≠ 0 || !nt.mainT.isEmpty || !nt.subT.isEmpty) then (s, .err)
           else
           let nt := { nt with color := t.color, convs := t.convs, refBy := t.refBy, unc := rangeSet s.all }
           let before := t.refs
